@@ -15,6 +15,7 @@ func read(s, n int) Op               { return Op{Op: "read", Sub: s, N: n} }
 func parksend(s int) Op              { return Op{Op: "parksend", Sub: s} }
 func parkexit(s int) Op              { return Op{Op: "parkexit", Sub: s} }
 func op(name string) Op              { return Op{Op: name} }
+func closeN(n int) Op                { return Op{Op: "close", N: n} }
 func cs(f, n string, ops ...Op) Case { return Case{Family: f, Name: n, Ops: ops} }
 
 // departureCases: a subscriber that does not read, with more than the internal buffer outstanding,
@@ -122,6 +123,62 @@ func forcedCases(thorough bool) []Case {
 	return out
 }
 
+// closeCases: two or three OVERLAPPING Close calls while a delivery is in progress — execute held at
+// beforeSend for each subscriber position, the first Close held at queue.close.afterCAS, execute
+// blocked on a stalled subscriber, a slow reader — and sequential repeated Close calls. Whenever any
+// of the calls returns, every subscriber channel must be closed and nothing may be received any more.
+func closeCases(cap int, thorough bool) []Case {
+	var out []Case
+	base := []Op{sub("prompt"), sub("manual"), sub("prompt"), batch(0), adv(10), read(1, 1)}
+	// sequential
+	out = append(out, cs("close-multi", "sequential-double", append(append([]Op{}, base...), batch(1), adv(10), closeN(1), op("settle"), closeN(1))...))
+	out = append(out, cs("close-multi", "sequential-triple-with-batch-between", append(append([]Op{}, base...), closeN(1), batch(1), adv(10), closeN(1), sub("prompt"), closeN(1))...))
+	out = append(out, cs("close-multi", "two-at-once-idle", append(append([]Op{}, base...), batch(1), adv(10), closeN(2))...))
+	out = append(out, cs("close-multi", "three-at-once-pending-item", append(append([]Op{}, base...), batch(1), closeN(3), adv(10))...))
+	ns := []int{2}
+	if thorough {
+		ns = []int{2, 3}
+	}
+	for _, n := range ns {
+		for j := 0; j < 3; j++ {
+			// a delivery is held inside the fan-out (lock held) before subscriber j; n Close calls pile up
+			for _, extra := range [][]Op{nil, {cancel(1)}, {closeN(1)}} {
+				ops := append([]Op{}, base...)
+				ops = append(ops, parksend(j), batch(1), adv(10), closeN(n))
+				ops = append(ops, extra...)
+				ops = append(ops, op("release"))
+				out = append(out, cs("close-multi", fmt.Sprintf("send%d-close%d-extra%d", j, n, len(extra)), ops...))
+			}
+			// one Close first, the delivery parks afterwards is impossible (the loop is stopped); instead:
+			// first Close, then a second one while the first is still held in the fan-out
+			ops := append([]Op{}, base...)
+			ops = append(ops, parksend(j), batch(1), adv(10), closeN(1), op("settle"), closeN(n-1), read(1, 2), op("release"))
+			out = append(out, cs("close-multi", fmt.Sprintf("send%d-close1-then-%d", j, n-1), ops...))
+		}
+		// the Close call that won the processor's CAS is held right after it; the others overlap it
+		ops := append([]Op{}, base...)
+		ops = append(ops, batch(1), op("parkcas"), closeN(1), closeN(n-1), adv(10), op("release"))
+		out = append(out, cs("close-multi", fmt.Sprintf("cas-held-%d-overlap", n), ops...))
+		ops = append([]Op{}, base...)
+		ops = append(ops, op("parkcas"), closeN(n), batch(2), cancel(0), op("release"))
+		out = append(out, cs("close-multi", fmt.Sprintf("cas-held-%d-at-once", n), ops...))
+		// both hooks: the winner held after the CAS, then released into a fan-out held at subscriber 2
+		ops = append([]Op{}, base...)
+		ops = append(ops, parksend(2), batch(1), adv(10), op("parkcas"), closeN(n), op("release"))
+		out = append(out, cs("close-multi", fmt.Sprintf("send2-and-cas-%d", n), ops...))
+		// execute blocked on a stalled live subscriber (back-pressure): n Close calls wait; the subscriber leaves
+		out = append(out, cs("close-multi", fmt.Sprintf("stalled-full-%d-closes-then-cancel", n),
+			sub("manual"), sub("prompt"), rounds(-1, cap+2), closeN(n), cancel(0)))
+		// ... or its reader wakes up
+		out = append(out, cs("close-multi", fmt.Sprintf("stalled-full-%d-closes-then-read", n),
+			sub("prompt"), sub("manual"), rounds(-1, cap+2), closeN(n), read(1, 3)))
+		// a slow reader holds a value in its forwarder's hand while the Close calls run
+		out = append(out, cs("close-multi", fmt.Sprintf("slow-reader-%d-closes", n),
+			sub("manual"), sub("prompt"), rounds(-1, 3), closeN(n), read(0, 1)))
+	}
+	return out
+}
+
 // randomCase: a short history over keys {0,1,2} with 1-3 subscribers.
 func randomCase(r *lib.Rand) Case {
 	n := r.Range(6, 18)
@@ -139,6 +196,7 @@ func randomCase(r *lib.Rand) Case {
 	}
 	addSub()
 	closed := false
+	closes := 0
 	parked := false
 	for i := 0; i < n; i++ {
 		x := r.Intn(100)
@@ -164,16 +222,20 @@ func randomCase(r *lib.Rand) Case {
 				ops = append(ops, read(m, r.Range(1, 3)))
 			}
 		case x < 90:
-			if !closed {
-				ops = append(ops, op("close"))
+			if closes < 3 {
+				ops = append(ops, closeN(r.Range(1, 2)))
 				closed = true
+				closes++
 			}
 		case x < 95:
 			if !parked {
-				if r.Bool() {
+				switch r.Intn(5) {
+				case 0, 1:
 					ops = append(ops, parksend(r.Intn(nsubs)))
-				} else {
+				case 2, 3:
 					ops = append(ops, parkexit(r.Intn(nsubs)))
+				default:
+					ops = append(ops, op("parkcas"))
 				}
 				parked = true
 			}
@@ -194,8 +256,8 @@ func randomCase(r *lib.Rand) Case {
 	if parked {
 		ops = append(ops, op("release"))
 	}
-	if !closed && r.Intn(3) == 0 {
-		ops = append(ops, op("close"))
+	if r.Intn(3) == 0 {
+		ops = append(ops, closeN(r.Range(1, 2)))
 	}
 	return Case{Family: "random", Ops: ops}
 }
